@@ -297,7 +297,9 @@ Definition clear_dust_delegation (del v : Z) (vi : ValInfo) (a : Asset) : M ValI
   od <- get_delegation del v (a_denom a) ;;
   dsr <- match od with
          | Some d =>
-           if del_tokens_with_shares (d_shares d) vi a =? 0
+           (* sdk.NewCoin in GetDelegationTokensWithShares panics on a negative value *)
+           if del_tokens_with_shares (d_shares d) vi a <? 0 then panic P_NEG_COIN
+           else if del_tokens_with_shares (d_shares d) vi a =? 0
            then del_delegation del v (a_denom a) ;;;
                 (if d_shares d <? 0 then panic P_NEG_COIN else ret (d_shares d))
            else ret 0
@@ -355,7 +357,8 @@ Definition k_undelegate (del v : Z) (vi : ValInfo) (denom amt : Z) : M unit :=
       od1 <- get_delegation del v denom ;;
       let d := match od1 with Some d => d | None => mkDelegation 0 [] 0 end in
       sh <- validate_delegated_amount d amt vi1 a ;;
-      if del_tokens_with_shares sh vi1 a <? amt then fail E_INSUFFICIENT_TOKENS
+      if del_tokens_with_shares sh vi1 a <? 0 then panic P_NEG_COIN
+      else if del_tokens_with_shares sh vi1 a <? amt then fail E_INSUFFICIENT_TOKENS
       else
         vsr <- opt_or_panic P_DIV_ZERO (validator_shares a amt) ;;
         let a' := set_a_vshares (a_vshares a - vsr) (set_a_tokens (a_tokens a - amt) a) in
@@ -408,7 +411,8 @@ Definition k_redelegate (del src : Z) (svi : ValInfo) (dst : Z) (dvi : ValInfo) 
               | None => claim_validator_rewards dst dvi
               end ;;
       sh <- validate_delegated_amount sd amt svi1 a ;;
-      if del_tokens_with_shares sh svi1 a <? amt then fail E_INSUFFICIENT_TOKENS
+      if del_tokens_with_shares sh svi1 a <? 0 then panic P_NEG_COIN
+      else if del_tokens_with_shares sh svi1 a <? amt then fail E_INSUFFICIENT_TOKENS
       else
         blocked <- gets (fun s => has_redelegation s del src denom) ;;
         if blocked then fail E_TRANSITIVE
